@@ -1,4 +1,5 @@
 """Hypothesis strategies shared by the pool-strategy properties."""
+import numpy as np
 from hypothesis import strategies as st
 
 from . import poolreg
@@ -115,20 +116,41 @@ def n_candidates(cand, yid):
     return len(cand["value"])
 
 
-def _gnb_degenerate(X, yid):
-    lab_rows = {tuple(X[i]) for i in range(len(X)) if yid[i] is not None}
-    lab_y = [v for v in yid if v is not None]
-    return len(lab_rows) == 1 and len(lab_y) >= 3 and len(set(lab_y)) >= 2
+def _gnb_degenerate(X, yid, extra_rows=None):
+    """True iff scikit-learn's GaussianNB, fitted on the labeled rows,
+    itself returns rows that are not probability vectors (neither NaN, which
+    SklearnClassifier repairs, nor summing to one) for some row of X or of
+    `extra_rows`: zero or almost zero variance of a class together with a
+    query row away from it (input region of known finding KF-C11-6)."""
+    import warnings
+    lab = [i for i in range(len(X)) if yid[i] is not None]
+    if len({yid[i] for i in lab}) < 2:
+        return False
+    from sklearn.naive_bayes import GaussianNB
+    Xa = np.array(X, dtype=float).reshape(len(X), -1)
+    rows = Xa if not extra_rows else np.vstack(
+        [Xa, np.array(extra_rows, dtype=float).reshape(-1, Xa.shape[1])])
+    with warnings.catch_warnings(), np.errstate(all="ignore"):
+        warnings.simplefilter("ignore")
+        try:
+            P = GaussianNB().fit(Xa[lab], [yid[i] for i in lab]) \
+                .predict_proba(rows)
+        except Exception:
+            return True
+    bad = ~np.isnan(P).any(axis=1) & (np.abs(P.sum(axis=1) - 1) > 1e-6)
+    return bool(bad.any())
 
 
 def gnb_zero_variance(case):
-    """True iff the case trains GaussianNB on >= 3 identical rows of two
-    classes (input region of known finding KF-C11-6)."""
+    """True iff the case trains GaussianNB in the input region of known
+    finding KF-C11-6 (see _gnb_degenerate)."""
     ent = poolreg.base_entry(case["entry"])
     eff = case.get("opts", {}).get("model_key") or (
         ent["model"][1] if ent["model"] and ent["model"][0] == "clf"
         else None)
-    return eff == "gnb" and _gnb_degenerate(case["X"], case["yid"])
+    cand = case.get("cand") or {}
+    extra = cand.get("value") if cand.get("mode") == "feat" else None
+    return eff == "gnb" and _gnb_degenerate(case["X"], case["yid"], extra)
 
 
 @st.composite
@@ -181,13 +203,14 @@ def pool_case(draw, names, allow_feat=True, max_n=None, force_cand=None,
         ent["model"][1] if ent["model"] and ent["model"][0] == "clf"
         else None)
     if eff == "gnb":
-        if _gnb_degenerate(X, yid):
+        if _gnb_degenerate(X, yid, cand["value"] if cand["mode"] == "feat"
+                           else None):
             # known finding KF-C11-6 (recorded for C11, where it belongs):
-            # scikit-learn's GaussianNB on zero-variance training rows of
-            # two classes (>= 3 rows; fewer rows give NaN, which the wrapper
-            # repairs) returns rows summing to 2 and SklearnClassifier
-            # passes them on; excluded by construction here so that the
-            # search continues (counted as "excluded_by_construction=...")
+            # scikit-learn's GaussianNB on (almost) zero-variance training
+            # rows returns rows that do not sum to one for query rows away
+            # from them and SklearnClassifier passes them on; excluded by
+            # construction here so that the search continues (counted as
+            # "excluded_by_construction=...")
             opts["model_key"] = "pwc"
             excluded = "KF-C11-6:gnb_zero_variance"
     if use_alt and ent["alt"] and not poolreg.is_wrapper(name) and \
